@@ -197,10 +197,10 @@ fn prop() -> DataProp {
     DataProp {
         id: "C03",
         specs: vec![
-            SpecRun { spec: "c03-list", depth_quick: 3, depth_thorough: 5, budget_quick_s: 12.0, budget_thorough_s: 600.0 },
-            SpecRun { spec: "c03-set", depth_quick: 3, depth_thorough: 5, budget_quick_s: 12.0, budget_thorough_s: 600.0 },
+            SpecRun { spec: "c03-list", depth_quick: 4, depth_thorough: 6, budget_quick_s: 12.0, budget_thorough_s: 600.0 },
+            SpecRun { spec: "c03-set", depth_quick: 4, depth_thorough: 6, budget_quick_s: 12.0, budget_thorough_s: 600.0 },
             SpecRun { spec: "c03-hash", depth_quick: 3, depth_thorough: 4, budget_quick_s: 12.0, budget_thorough_s: 600.0 },
-            SpecRun { spec: "c03-mixed", depth_quick: 3, depth_thorough: 5, budget_quick_s: 10.0, budget_thorough_s: 600.0 },
+            SpecRun { spec: "c03-mixed", depth_quick: 4, depth_thorough: 6, budget_quick_s: 10.0, budget_thorough_s: 600.0 },
         ],
         make_world,
         assumptions: e1common::std_assumptions(),
